@@ -923,8 +923,8 @@ pub fn run(ctx: &Ctx) {
         println!("INCONCLUSIVE property={}: cannot expand the standard library: {e}", ctx.id);
         std::process::exit(2);
     }
-    let mut na = ctx.scale(220, 5000);
-    let mut nb = ctx.scale(64, 2500);
+    let mut na = ctx.scale(200, 5000);
+    let mut nb = ctx.scale(48, 2500);
     if let Some(k) = std::env::var("VERIF_C24_CASES").ok().and_then(|x| x.parse::<usize>().ok()) {
         na = k; // development aid
         nb = k / 3;
